@@ -17,6 +17,7 @@ import Kopf.Model.C04_Essence
 import Kopf.Model.C04_Guards
 import Kopf.Lemmas.C04_Marker
 import Kopf.Lemmas.C04_MultiClean
+import Kopf.Lemmas.C04_Shared
 namespace Kopf.C04
 open Kopf Kopf.J
 
@@ -520,5 +521,49 @@ theorem multi_cleaning_order_independent (ls ls' : List DiffBaseLeaf) (pc : Prog
 /-- the guard is met by the usual locations. -/
 example : PseudoApart ["status", "diff-base"] ∧ PseudoApart ["spec", "replicas"] ∧ PseudoApart ["metadata", "labels", "tier"] := by
   refine ⟨⟨by simp, by simp, ?_⟩, ⟨by simp, by simp, ?_⟩, ⟨by simp, by simp, ?_⟩⟩ <;> (intro ⟨t, ht⟩; simp at ht)
+
+/-! ## one storage object serving many objects (Model/C04_Shared.lean)
+
+  The diff-base storage is ONE instance per operator; what it answers for an object must be a function of that
+  object alone — otherwise "an ordinary annotation counts" depends on which OTHER objects the operator met. -/
+
+/-- **The marked prefixes of an object do not depend on the objects served before** (the code's policy: the set is
+    local to the call), for every history. -/
+theorem served_prefixes_history_independent (history : List (List String)) (ks : List String) :
+    servedPrefixes statelessDetect history ks = markedPrefixes ks := by
+  simp only [servedPrefixes, statelessDetect]
+
+/-- **What a storage builds for an object is what a fresh storage builds**, whatever bodies it has served before. -/
+theorem served_build_history_independent (history : List J) (ignored extra : List (List String)) (body : J) :
+    servedBuild statelessDetect history ignored extra body = baseBuild ignored extra body := by
+  have : servedPrefixes statelessDetect (history.map annKeys) = markedPrefixes := by
+    funext ks; exact served_prefixes_history_independent _ ks
+  simp only [servedBuild, this, baseBuildWith_marked]
+
+/-- **An ordinary annotation stays in the essence after any history**: an annotation name that no marked prefix of
+    its OWN object covers (and that is not kubectl's) is kept, whatever objects — marked ones included — were served before. -/
+theorem ordinary_annotation_kept_after_any_history (history : List (List String)) (ks : List String) (k : String)
+    (hk : k ∈ ks) (hord : keepAnnotation (markedPrefixes ks) k = true) :
+    k ∈ servedKept statelessDetect history ks := by
+  simp only [servedKept, served_prefixes_history_independent, List.mem_filter]
+  exact ⟨hk, hord⟩
+
+/-- the hypotheses are met: `example.com/team` on an object without a marker, after an object carrying
+    `example.com/kopf-managed` was served. -/
+example : "example.com/team" ∈ servedKept statelessDetect [["example.com/kopf-managed", "example.com/state"]] ["example.com/team", "note"] :=
+  ordinary_annotation_kept_after_any_history _ _ _ (by simp) (by decide)
+
+/-- **The remembering variant hides every annotation under a prefix that ANY earlier object had marked** — for all
+    histories, all objects: the reason why the storage must not carry the set over (seeded change C04g). -/
+theorem remembering_hides_after_marked_object (pre post : List (List String)) (marked ks : List String) (p : List Char) (k : String)
+    (hp : p ∈ markedPrefixes marked) (hu : underPrefix p k = true) :
+    k ∉ servedKept rememberingDetect (pre ++ marked :: post) ks := by
+  intro hmem
+  simp only [servedKept, List.mem_filter, keepAnnotation, Bool.and_eq_true, Bool.not_eq_true', List.any_eq_false] at hmem
+  have hin : p ∈ servedPrefixes rememberingDetect (pre ++ marked :: post) ks := by
+    simp only [servedPrefixes, rememberingDetect]
+    exact List.mem_append_left _ (serveAll_remembering_mem [] pre marked post p hp)
+  have := hmem.2.1 p hin
+  simp [hu] at this
 
 end Kopf.C04
